@@ -144,6 +144,16 @@ impl Agg {
             Agg::Xor => "xor",
         }
     }
+    /// The keyword or its long alias (conjunction / disjunction / exclusive_disjunction), chosen by a salt
+    /// so that both spellings occur in the block form and in the scoped form without a random source.
+    pub fn spelled(self, salt: usize) -> &'static str {
+        match (self, salt % 3) {
+            (Agg::All, 0) => "conjunction",
+            (Agg::Any, 0) => "disjunction",
+            (Agg::Xor, 0) => "exclusive_disjunction",
+            _ => self.name(),
+        }
+    }
     pub fn is_logic(self) -> bool {
         matches!(self, Agg::All | Agg::Any | Agg::Xor)
     }
@@ -530,8 +540,14 @@ impl Prog {
             DE::Abs(a) => format!("abs {{ {} }}", Self::p_de(a)),
             DE::Not(a) => format!("(not ({}))", Self::p_de(a)),
             DE::Implies(a, b) => format!("(({}) implies ({}))", Self::p_de(a), Self::p_de(b)),
-            DE::Block(kind, items) => format!("{} {{ {} }}", kind.name(), items.iter().map(Self::p_de).collect::<Vec<_>>().join(", ")),
-            DE::Scoped(kind, binds, body) => format!("{}({}) {{ {} }}", kind.name(), Self::p_binds(binds), Self::p_de(body)),
+            DE::Block(kind, items) => {
+                let inner = items.iter().map(Self::p_de).collect::<Vec<_>>().join(", ");
+                format!("{} {{ {} }}", kind.spelled(inner.len()), inner)
+            }
+            DE::Scoped(kind, binds, body) => {
+                let inner = Self::p_de(body);
+                format!("{}({}) {{ {} }}", kind.spelled(inner.len()), Self::p_binds(binds), inner)
+            }
         }
     }
 
